@@ -1,10 +1,166 @@
+/-
+  Props/C13.lean — property theorems for C13 (process memory figures are consistent with the
+  kernel's per-mapping accounting). Only statements the property makes; helper lemmas live in
+  Proofs/C13*.lean.
+
+  `cfg` is built from Generated/C13.lean, which the translator rewrites from /repo's source on
+  every run. `cfg_good` / `cfg_keeps_names` / `regex_facts` / `field_facts` are the proof
+  obligations that break when the statm order, the row keys or their order, a `* 1024`, the
+  '[anon]' / ' (deleted)' literals, the roll-up prefixes, a regex, a namedtuple layout or the
+  path handling change.
+-/
+import PsutilModel.Proofs.C13Misc
+import PsutilModel.Proofs.C13Full
 import PsutilModel.Model.C13Gen
-import PsutilModel.Spec.C13
 namespace Psutil.C13
-open Spec
+open Psutil Psutil.C13.Spec
+
+/-! ## translator-fed obligations -/
+
+theorem cfg_good : cfg.Good := by
+  constructor <;> decide
+
+/-- psutil reports the mapped file's name as the kernel printed it (no `strip()`): needed for
+    names that end in a blank. -/
+theorem cfg_keeps_names : cfg.stripsPath = false := by decide
 
 theorem regex_facts :
     Gen.C13.privateRe = "\\nPrivate.*:\\s+(\\d+)" ∧ Gen.C13.pssRe = "\\nPss\\:\\s+(\\d+)"
       ∧ Gen.C13.swapRe = "\\nSwap\\:\\s+(\\d+)" := by decide
+
+/-- layout of the result tuples and of the front-end grouping loop -/
+theorem field_facts :
+    Gen.C13.pmmapExtFields = extNames ∧ Gen.C13.pmmapGroupedFields = groupedNames
+      ∧ Gen.C13.groupPathIdx = 2 ∧ Gen.C13.groupNumsFrom = 3 ∧ Gen.C13.mapsMaxsplit = 5
+      ∧ Gen.C13.fallbackExcs = ["FileNotFoundError", "ProcessLookupError"] := by decide
+
+/-! ## memory_info -/
+
+/-- **C13_statm.** For every statm record and page size, `memory_info()` is the kernel's page
+    counts × page size, in the order (rss, vms, shared, text, lib, data, dirty). -/
+theorem C13_statm (pagesize : Nat) (r : Statm) :
+    memoryInfo cfg pagesize (renderStatm r) = .ok (specMemInfo pagesize r)
+      ∧ cfg.pmemFields = pmemNames :=
+  ⟨statm_roundtrip cfg cfg_good pagesize r, cfg_good.pmemFields⟩
+
+/-! ## memory_maps -/
+
+theorem wfSmaps_spec {strips : Bool} {m : Mapping} {ms : List Mapping}
+    (h : wfSmaps strips (m :: ms) = true) :
+    m.kv.map (·.key) ≠ [] ∧ (m.kv.map (·.key)).Nodup
+      ∧ ∀ x ∈ m :: ms, WfM strips (m.kv.map (·.key)) x := by
+  unfold wfSmaps keysOf at h
+  simp only [Bool.and_eq_true, Bool.not_eq_true', decide_eq_true_eq, List.all_eq_true] at h
+  obtain ⟨⟨hne, hnd⟩, hall⟩ := h
+  refine ⟨?_, hnd, fun x hx => wfMapping_spec (hall x hx)⟩
+  intro e
+  rw [e] at hne
+  simp at hne
+
+theorem maps_roundtrip (c : Cfg) (hg : c.Good) (probe : Bytes → Probe) (zombie : Bool)
+    (ms : List Mapping) (hne : ms ≠ []) (hwf : wfSmaps c.stripsPath ms = true)
+    (hfs : ∀ m ∈ ms, fsConsistent probe m = true) :
+    memoryMaps c probe zombie (renderSmaps ms) = .ok (ms.map specRow) := by
+  cases ms with
+  | nil => exact absurd rfl hne
+  | cons m ms' =>
+    obtain ⟨hK, hnd, hw⟩ := wfSmaps_spec hwf
+    rw [memoryMaps_eq_blocks c probe zombie _ hK m ms' hw]
+    exact blocks_restLines c hg probe _ hnd m ms' [] hw hfs (fun k _ => rfl)
+
+/-- **C13_maps_roundtrip.** For EVERY non-empty list of well-formed mappings — any number of
+    them, repeated paths, names with blanks / colons / `Pss: 7` / a literal ` (deleted)`, names
+    ending in blanks, unlinked files, anonymous mappings, optional lines present or absent, values
+    of any size — `memory_maps(grouped=False)` lists exactly one row per mapping, in order, with
+    the mapping's own address range, permissions, path (`[anon]` if none) and figures × 1024.
+    (`wfSmaps false`: the full domain, names ending in blanks included.) -/
+theorem C13_maps_roundtrip (probe : Bytes → Probe) (zombie : Bool) (ms : List Mapping)
+    (hne : ms ≠ []) (hwf : wfSmaps false ms = true)
+    (hfs : ∀ m ∈ ms, fsConsistent probe m = true) :
+    memoryMaps cfg probe zombie (renderSmaps ms) = .ok (ms.map specRow) := by
+  have h := maps_roundtrip cfg cfg_good probe zombie ms hne
+  rw [cfg_keeps_names] at h
+  exact h hwf hfs
+
+/-- The same for a `memory_maps` that strips the decoded name (psutil ≤ 7.0.0), on the smaller
+    domain of names that do not end in a blank. -/
+theorem C13_maps_roundtrip_stripping_partial (c : Cfg) (hg : c.Good) (probe : Bytes → Probe)
+    (zombie : Bool) (ms : List Mapping) (hne : ms ≠ []) (hwf : wfSmaps true ms = true)
+    (hs : c.stripsPath = true) (hfs : ∀ m ∈ ms, fsConsistent probe m = true) :
+    memoryMaps c probe zombie (renderSmaps ms) = .ok (ms.map specRow) :=
+  maps_roundtrip c hg probe zombie ms hne (by rw [hs]; exact hwf) hfs
+
+/-- **C13_empty_smaps.** An empty (or blank) smaps file: `[]` for a live process,
+    ZombieProcess for a zombie. -/
+theorem C13_empty_smaps (probe : Bytes → Probe) (zombie : Bool) (content : Bytes)
+    (h : stripWs content = []) :
+    memoryMaps cfg probe zombie content = if zombie then .error .zombieProcess else .ok [] := by
+  simp [memoryMaps, readSmaps, h]
+
+theorem C13_empty_smaps_rendered (probe : Bytes → Probe) (zombie : Bool) :
+    memoryMaps cfg probe zombie (renderSmaps []) = if zombie then .error .zombieProcess else .ok [] :=
+  C13_empty_smaps probe zombie _ rfl
+
+/-! ## memory_maps(grouped=True) -/
+
+/-- **C13_grouped_conservation.** The grouped view is the finite map
+    path ↦ field-wise sums over that path's rows: a path that occurs is listed with, in every
+    field, the sum over the rows of that path; a path that does not occur is not listed. -/
+theorem C13_grouped_conservation (w : Nat) (rows : List Row) (hw : ∀ r ∈ rows, r.nums.length = w)
+    (p : Bytes) :
+    (grouped rows).lookup p
+      = if p ∈ rows.map (·.path) then some ((List.range w).map fun i => specGroupedField rows p i)
+        else none :=
+  grouped_lookup w rows hw p
+
+/-- … and there is exactly one row per distinct path. -/
+theorem C13_grouped_one_row_per_path (rows : List Row) : ((grouped rows).map (·.1)).Nodup :=
+  grouped_nodup rows
+
+/-! ## memory_percent -/
+
+/-- **C13_percent.** `memory_percent(t)` = 100 · field / total physical memory, the field taken
+    from `memory_info()` (basic names) or `memory_full_info()` (uss, pss, swap); the total is
+    `_TOTAL_PHYMEM` when set (non-zero), else `virtual_memory().total`. -/
+theorem C13_percent (memtype : String) (vals : List Nat) (u p s : Nat) (hlen : vals.length = 7)
+    (cached : Option Int) (vm : Int) (v : Nat)
+    (hv : (pfullmemNames.zip (vals ++ [u, p, s])).lookup memtype = some v)
+    (total : Int) (htot : total = (match cached with | some t => if t = 0 then vm else t | none => vm))
+    (hpos : total > 0) :
+    memoryPercent cfg memtype (.ok vals) (.ok (vals ++ [u, p, s])) cached vm
+      = .ok (specPercent v total) :=
+  percent_value cfg cfg_good memtype vals u p s hlen cached vm v hv total htot hpos
+
+/-- **C13_bad_memtype_ValueError.** A name that is not a field of `pfullmem` is rejected with
+    ValueError, whatever the process looks like (nothing is read). -/
+theorem C13_bad_memtype_ValueError (memtype : String) (info full : Res (List Nat))
+    (cached : Option Int) (vm : Int) (h : memtype ∉ pfullmemNames) :
+    memoryPercent cfg memtype info full cached vm = .error .valueError :=
+  bad_memtype cfg cfg_good memtype info full cached vm h
+
+/-! ## memory_full_info -/
+
+/-- **C13_rollup_fallback.** ENOENT or ESRCH on the roll-up file: the per-mapping listing is
+    used, exactly as when the kernel has no roll-up file at all. -/
+theorem C13_rollup_fallback (pagesize : Nat) (smaps statm : Bytes) (r : FileRes) :
+    memoryFullInfo cfg true pagesize .enoent smaps statm = memoryFullInfo cfg false pagesize r smaps statm
+    ∧ memoryFullInfo cfg true pagesize .esrch smaps statm = memoryFullInfo cfg false pagesize r smaps statm := by
+  constructor <;> simp [memoryFullInfo]
+
+/-- **C13_full_info_sums.** From the per-mapping listing: uss = 1024·Σ(Private_Clean +
+    Private_Dirty + Private_Hugetlb), pss = 1024·Σ Pss, swap = 1024·Σ Swap, over all mappings;
+    the basic fields are those of `memory_info()`. -/
+theorem C13_full_info_sums (pagesize : Nat) (st : Statm) (ms : List Mapping) (rollup : FileRes)
+    (hne : ms ≠ []) (hwf : wfSmaps false ms = true) :
+    memoryFullInfo cfg false pagesize rollup (renderSmaps ms) (renderStatm st)
+      = .ok (specFullInfo pagesize st ms) :=
+  full_info_smaps cfg cfg_good pagesize st ms rollup hne hwf
+
+/-- **C13_rollup_agrees.** The roll-up file (field-wise sums of the kB keys) gives the same
+    three figures as the per-mapping listing. -/
+theorem C13_rollup_agrees (ms : List Mapping) (hne : ms ≠ []) (hwf : wfSmaps false ms = true)
+    (hu : uniformUnits ms = true) :
+    parseSmapsRollup cfg (renderRollup (rollupKeysOf ms) ms) = .ok (parseSmaps cfg (renderSmaps ms)) :=
+  rollup_agrees cfg cfg_good ms hne hwf hu
 
 end Psutil.C13
